@@ -173,6 +173,57 @@ class _PV:
         self.items.append((self.cur, p))
 
 
+
+def reduce_decision_instance(ctx, rule):
+    """the reduce-vs-reverse decision of the open path compares the position's CURRENT SPOT notional with the order's
+    notional (shared by C02: the stored direction stays right; and C17: the branch that forwards the caller's limit is
+    taken exactly when the executable quote says the order is a reduction)"""
+    ix = ctx.ix
+    w = ctx.world
+    # the size/direction invariant (and the limit forwarding) rely on the reduce-vs-reverse decision using the price the swap executes at
+    bad = None
+    n = 0
+    where = ""
+    for f in sorted(w.crate_fns(ENG), key=lambda f: f.pretty):
+        if f.derived or "::_::" in f.pretty or f.kind == "Closure":
+            continue
+        try:
+            oks = ix.ok_paths(f)
+        except Exception:
+            continue
+        for p in oks:
+            decides = [(at, o) for (at, o, _b, _l) in p.conds if tag(at) == "op" and payload(at)[0] in ("gt", "lt", "ge", "le")
+                       and any(tag(ix.inline(k)) == "field" and payload(ix.inline(k))[0] == "position_notional" for k in kids(at))]
+            if not decides:
+                continue
+            ids = set()
+            for s in model.path_submsgs(ix, p):
+                if s.reply_on_name() == "Always":
+                    ids |= ({s.id_int()} if s.id_int() is not None else s.id_options())
+            if 2 not in ids or 3 in ids:
+                # only the paths that (may) reduce; a path that builds both is the undecided caller
+                if not (ids == {2} or (2 in ids and any(tag(x) == "int" and payload(x)[0] == "2" for e in p.events for x in e.args))):
+                    continue
+            if 3 in ids and 2 in ids:
+                continue
+            n += 1
+            where = f.where()
+            for (at, o) in decides:
+                l, r = kids(at)
+                li = ix.inline(l)
+                spot = False
+                if tag(li) == "field" and payload(li)[0] == "position_notional":
+                    c = kids(li)[0]
+                    while tag(c) in ("unwrap", "ok"):
+                        c = kids(c)[0]
+                    spot = tag(c) == "call" and any(tag(a) == "agg" and payload(a)[1] == "SpotPrice" for a in kids(c))
+                passing = (payload(at)[0] == "gt" and o is True) or (payload(at)[0] == "le" and o is False)
+                if not (spot and passing):
+                    bad = bad or "%s decides reduce on %s == %s" % (f.pretty, sym.show(ix.inline(at), 5), o)
+    ctx.inst(rule, "reduce-decision-at-spot", bad is None and n > 0, where,
+             "%d reducing paths; %s" % (n, "each established spot position_notional > order notional" if bad is None else
+                bad + ": an order larger than the position can then cross zero with a stale direction"))
+
 def run(ctx):
     ix = ctx.ix
     w = ctx.world
@@ -468,50 +519,8 @@ def run(ctx):
         if whole_ok:
             ctx.inst("R02.2", "whole-swap:%s" % ckey, not any("removed/zeroed" in p for p in uniq), rst.fn.where(),
                      "position removed/zeroed only after SwapOutput of size.value in the position's own direction")
-    # ---- R02.4: the size/direction invariant relies on the reduce-vs-reverse decision using the price the swap executes at
     ctx.rule("R02.4", "reduce (instead of close-and-reverse) is chosen only when the position's SPOT value exceeds the order notional; the partial fractions are validated <= 1", 2)
-    bad = None
-    n = 0
-    where = ""
-    for f in sorted(w.crate_fns(ENG), key=lambda f: f.pretty):
-        if f.derived or "::_::" in f.pretty or f.kind == "Closure":
-            continue
-        try:
-            oks = ix.ok_paths(f)
-        except Exception:
-            continue
-        for p in oks:
-            decides = [(at, o) for (at, o, _b, _l) in p.conds if tag(at) == "op" and payload(at)[0] in ("gt", "lt", "ge", "le")
-                       and any(tag(ix.inline(k)) == "field" and payload(ix.inline(k))[0] == "position_notional" for k in kids(at))]
-            if not decides:
-                continue
-            ids = set()
-            for s in model.path_submsgs(ix, p):
-                if s.reply_on_name() == "Always":
-                    ids |= ({s.id_int()} if s.id_int() is not None else s.id_options())
-            if 2 not in ids or 3 in ids:
-                # only the paths that (may) reduce; a path that builds both is the undecided caller
-                if not (ids == {2} or (2 in ids and any(tag(x) == "int" and payload(x)[0] == "2" for e in p.events for x in e.args))):
-                    continue
-            if 3 in ids and 2 in ids:
-                continue
-            n += 1
-            where = f.where()
-            for (at, o) in decides:
-                l, r = kids(at)
-                li = ix.inline(l)
-                spot = False
-                if tag(li) == "field" and payload(li)[0] == "position_notional":
-                    c = kids(li)[0]
-                    while tag(c) in ("unwrap", "ok"):
-                        c = kids(c)[0]
-                    spot = tag(c) == "call" and any(tag(a) == "agg" and payload(a)[1] == "SpotPrice" for a in kids(c))
-                passing = (payload(at)[0] == "gt" and o is True) or (payload(at)[0] == "le" and o is False)
-                if not (spot and passing):
-                    bad = bad or "%s decides reduce on %s == %s" % (f.pretty, sym.show(ix.inline(at), 5), o)
-    ctx.inst("R02.4", "reduce-decision-at-spot", bad is None and n > 0, where,
-             "%d reducing paths; %s" % (n, "each established spot position_notional > order notional" if bad is None else
-                bad + ": an order larger than the position can then cross zero with a stale direction"))
+    reduce_decision_instance(ctx, "R02.4")
     # the fractions used for partial close / partial liquidation cannot exceed 1 (else the swap exceeds the position)
     from . import c20 as _c20
     from ..core import Ctx as _Ctx
